@@ -41,7 +41,11 @@ ASSUMPTIONS = ['signals finite, longer than the filter, >= 3 oscillations in ban
 
 def cases(rng, tier):
     n = 150 if tier == 'quick' else 1500
-    return [pipeline.gen_case(rng, tier, wide=True, f32=True, extra={'fit': i % 4 == 0}) for i in range(n)]
+    out = [pipeline.gen_case(rng, tier, wide=True, f32=True, extra={'fit': i % 4 == 0}) for i in range(n)]
+    # the smallest tables: recordings 1-3 samples longer than the 3-cycle kernel of a band whose low edge is close to the rhythm
+    out += [pipeline.gen_case(rng, tier, methods=('cycles', 'cycles', 'amp'), fek_prob=0.0, extra={'fit': i % 2 == 0}, short='force', exact_k=None, other=False)
+            for i in range(10 if tier == 'quick' else 60)]
+    return out
 
 
 run_impl = pipeline.run_pipe
